@@ -63,7 +63,20 @@ def r20a(ck, fb):
                 raise Unsupported('writer result %r' % (out,))
             n = len(out.items)
         except (Undecided, Unsupported, Panic) as e:
-            ck.bad('R20a', 'write:%s' % cname, w.where(), 'write_varint64 not decided for class %s: %s' % (cname, e))
+            # the class does not decide the writer's branch: members of the class behave differently. Name a witness from its corners.
+            wit = ''
+            if t >= 0:
+                for cv in (1 << t, (1 << (t + 1)) - 1, (1 << t) | ((1 << t) - 1) >> 1):
+                    try:
+                        o2 = Interp(fb).call_body(w, [BV.const(64, cv)], 0)
+                        s2 = Interp(fb).call_body(sz, [BV.const(64, cv)], 0)
+                        if isinstance(o2, VecV) and isinstance(s2, BV) and s2.is_const() and len(o2.items) != s2.value():
+                            wit = ' - witness: write_varint64(%d) emits %d bytes, inner_sizeof_varint says %d' % (cv, len(o2.items), s2.value())
+                            break
+                    except (Undecided, Unsupported, Panic):
+                        pass
+            ck.bad('R20a', 'write:%s' % cname, w.where(), 'write_varint64 is not uniform on class %s (its branch depends on more than the position of the '
+                   'leading one bit, which is all the wire format may depend on)%s [%s]' % (cname, wit, str(e)[:60]))
             continue
         # (1) size function
         try:
